@@ -13,20 +13,9 @@ import (
 type Schema struct {
 	Types []Type
 
-	// Rels stores the relationships found in the schema's types. For
-	// two-way relationships, only one is chosen to be part of this
-	// map. The chosen one is the one that comes first when sorting
-	// both relationships in alphabetical order using the type name
-	// first and then the relationship name.
-	//
-	// For example, a type called Directory has a Parent relationship
-	// and a Children relationship. Both relationships have the same
-	// type (Directory), so now the name is used for sorting. Children
-	// comes before Parent, so the relationship Children from type
-	// Directory is stored here. The other one is not stored to avoid
-	// duplication (the information is already accessible through the
-	// inverse relationship).
-	rels map[string]Rel
+	// rels stores the set of normalized relationships found in the
+	// schema's types (see buildRels).
+	rels map[Rel]struct{}
 }
 
 // AddType adds a type to the schema.
@@ -161,17 +150,35 @@ func (s *Schema) Rels() []Rel {
 	s.buildRels()
 
 	rels := make([]Rel, 0, len(s.rels))
-	for _, rel := range s.rels {
+	for rel := range s.rels {
 		rels = append(rels, rel)
 	}
 
 	sort.Slice(rels, func(i, j int) bool {
-		name1 := rels[i].FromType + rels[i].FromName
-		name2 := rels[j].FromType + rels[j].FromName
-		return name1 < name2
+		return relLess(rels[i], rels[j])
 	})
 
 	return rels
+}
+
+// relLess defines the order of the relationships returned by Schema.Rels. It
+// is a total order, so the result does not depend on the iteration order of
+// the maps it is built from.
+func relLess(r1, r2 Rel) bool {
+	switch {
+	case r1.FromType != r2.FromType:
+		return r1.FromType < r2.FromType
+	case r1.FromName != r2.FromName:
+		return r1.FromName < r2.FromName
+	case r1.ToType != r2.ToType:
+		return r1.ToType < r2.ToType
+	case r1.ToName != r2.ToName:
+		return r1.ToName < r2.ToName
+	case r1.ToOne != r2.ToOne:
+		return !r1.ToOne
+	default:
+		return !r1.FromOne && r2.FromOne
+	}
 }
 
 // HasType returns a boolean indicating whether a type has the specified name or
@@ -265,13 +272,16 @@ func (s *Schema) Check() []error {
 
 // buildRels builds the set of normalized relationships that is returned by
 // Schema.Rels.
+//
+// For two-way relationships, only one is chosen to be part of the set (see
+// Rel.Normalize). The other one is left out to avoid duplication (the
+// information is already accessible through the inverse relationship).
 func (s *Schema) buildRels() {
-	s.rels = map[string]Rel{}
+	s.rels = map[Rel]struct{}{}
 
 	for _, typ := range s.Types {
 		for _, rel := range typ.Rels {
-			relName := rel.String()
-			s.rels[relName] = rel.Normalize()
+			s.rels[rel.Normalize()] = struct{}{}
 		}
 	}
 }
